@@ -51,6 +51,13 @@ func (h HelperContext) BlockWith(hc hctx.Context) (string, error) {
 	if hc == nil {
 		return "", fmt.Errorf("no context to run the block with")
 	}
+	// a block that replays itself (contentOf of its own name) would go on
+	// until the stack is used up, which no caller can recover from
+	if leave, err := h.compiler.exec.enter(); err != nil {
+		return "", err
+	} else {
+		defer leave()
+	}
 
 	// The block is evaluated by an evaluator of its own: a stored block
 	// (contentFor) is rendered again by later executions, possibly by
